@@ -449,7 +449,7 @@ func (s *c18Run) catchUp(first bool, prevCommit int) (map[string][]obs.Rec, bool
 			fmt.Fprintf(os.Stderr, "round %d run %d full=%v failAt=%d: err=%q reqs=%d emitted=%v token %s -> %s\n", s.round, n, full, failAt, o.err, o.reqs, ids, before, tk)
 		}
 		if o.hung != "" {
-			s.ctx.Out.Inconclusive(s.id, "C18", "watchdog: job run did not end ("+o.hung+")")
+			s.ctx.Out.Emit(map[string]any{"t": "inconclusive", "case": s.id, "prop": "C18", "why": "watchdog: job run did not end (" + o.hung + ")", "goroutines": c08LastDump, "ops": s.c})
 			s.abort = true
 			if o.hung == "stuck" {
 				s.ctx.Out.Close()
@@ -597,6 +597,12 @@ func (s *c18Run) classifyPrevMiss(w c18Witness, prevCommit int) string {
 				return "removed-link-latestOnly-superseded-version-in-earlier-page"
 			}
 		}
+	}
+	// the entity still has at least `batch` first-hop links: its current-time relation query is paged, and the
+	// back-dated query is issued after that paging
+	if cur := c18Latest(s.m, w.Dep.Dataset, w.Changed, -1); cur != nil && !cur.Deleted && hubSees &&
+		len(model.RefTargets(cur.Refs[w.Dep.Joins[0].Predicate])) >= s.c.Batch {
+		return "removed-link-after-paged-current-query"
 	}
 	return "removed-link-other"
 }
@@ -925,7 +931,18 @@ func c18Gen(r *rand.Rand) C18Case {
 		return d
 	}
 	hops := []int{1, 1, 2, 2, 2, 3, 3}[r.Intn(7)]
+	// fan-out shape: an OUTGOING first join, a dependency entity with more first-hop links than the batch size
+	// (so that the current-time relation query of that entity is paged), and one of those links removed later
+	fan := r.Intn(5) == 0
+	if fan {
+		hops = []int{1, 1, 1, 2, 2}[r.Intn(5)]
+		c.Batch = 1 + r.Intn(2)
+	}
 	c.Deps = append(c.Deps, mkChain("dep", hops))
+	if fan {
+		c.Deps[0].Joins[0].Inverse = false
+		tags["fan-out-paged-first-hop"] = true
+	}
 	if r.Intn(10) < 3 {
 		name := "dep2"
 		if r.Intn(2) == 0 {
@@ -988,6 +1005,9 @@ func c18Gen(r *rand.Rand) C18Case {
 		}
 	}
 	nIDs := 3 + r.Intn(2)
+	if fan {
+		nIDs = 4
+	}
 	cur := map[string]model.Ent{}
 	mkEnt := func(ds string) model.Ent {
 		pool := pools[ds]
@@ -1021,11 +1041,12 @@ func c18Gen(r *rand.Rand) C18Case {
 			for _, rs := range refsOf[ds] {
 				if r.Intn(10) < 7 {
 					if r.Intn(4) == 0 {
-						a, b := c18ID(rs.pool, r.Intn(nIDs)), c18ID(rs.pool, r.Intn(nIDs))
-						if a != b {
-							e.Refs[rs.pred] = []any{a, b}
-							continue
+						var arr []any
+						for _, i := range r.Perm(nIDs)[:2+r.Intn(2)] {
+							arr = append(arr, c18ID(rs.pool, i))
 						}
+						e.Refs[rs.pred] = arr
+						continue
 					}
 					e.Refs[rs.pred] = c18ID(rs.pool, r.Intn(nIDs))
 				}
@@ -1047,9 +1068,14 @@ func c18Gen(r *rand.Rand) C18Case {
 				cands = append(cands, ds)
 			}
 		}
-		empty[cands[r.Intn(len(cands))]] = true
-		tags["empty-at-first-run"] = true
+		pick := cands[r.Intn(len(cands))]
+		if !(fan && pick == "dep") {
+			empty[pick] = true
+			tags["empty-at-first-run"] = true
+		}
 	}
+	fanID, fanPred := c18ID(pools["dep"], 0), c.Deps[0].Joins[0].Predicate
+	fanPool := pools[c.Deps[0].Joins[0].Dataset]
 	// round 0: every non-empty dataset gets data
 	var r0 []C18Write
 	for _, ds := range c.Datasets {
@@ -1064,10 +1090,53 @@ func c18Gen(r *rand.Rand) C18Case {
 		r0 = append(r0, C18Write{DS: ds, Ents: ents})
 	}
 	r.Shuffle(len(r0), func(i, j int) { r0[i], r0[j] = r0[j], r0[i] })
+	if fan {
+		// every main entity exists, and d0 links to batch+2 first-hop targets
+		var ms []model.Ent
+		for i := 0; i < nIDs; i++ {
+			id := c18ID(pools[c18Main], i)
+			if _, ok := cur[c18Main+"|"+id]; !ok {
+				e := model.NormEnt(model.Ent{ID: id, Props: map[string]any{gen.NsP + "k0": float64(r.Intn(50))}, Refs: map[string]any{}})
+				cur[c18Main+"|"+id] = e
+				ms = append(ms, e)
+			}
+		}
+		if len(ms) > 0 {
+			r0 = append(r0, C18Write{DS: c18Main, Ents: ms})
+		}
+		var arr []any
+		for _, i := range r.Perm(nIDs)[:c.Batch+2] {
+			arr = append(arr, c18ID(fanPool, i))
+		}
+		e := model.NormEnt(model.Ent{ID: fanID, Props: map[string]any{gen.NsP + "k0": float64(r.Intn(50))}, Refs: map[string]any{fanPred: arr}})
+		cur["dep|"+fanID] = e
+		r0 = append(r0, C18Write{DS: "dep", Ents: []model.Ent{e}})
+	}
 	c.Rounds = append(c.Rounds, r0)
 	nr := 2 + r.Intn(3)
 	for k := 0; k < nr; k++ {
 		var rd []C18Write
+		if fan && (k == 0 || r.Intn(2) == 0) {
+			// first write of the round: d0 loses one of its first-hop links, more than `batch` links stay
+			if prev, ok := cur["dep|"+fanID]; ok && !prev.Deleted {
+				if arr, ok := prev.Refs[fanPred].([]any); ok && len(arr) >= c.Batch+2 {
+					e := gen.Clone(prev)
+					drop := r.Intn(len(arr))
+					var rest []any
+					for i, t := range arr {
+						if i != drop {
+							rest = append(rest, t)
+						}
+					}
+					e.Refs[fanPred] = rest
+					e.Props[gen.NsP+"k0"] = float64(50 + r.Intn(50))
+					e = model.NormEnt(e)
+					cur["dep|"+fanID] = e
+					rd = append(rd, C18Write{DS: "dep", Ents: []model.Ent{e}})
+					tags["one-of-many-links-removed"] = true
+				}
+			}
+		}
 		nb := 1 + r.Intn(3)
 		for b := 0; b < nb; b++ {
 			var ds string
